@@ -70,7 +70,7 @@ type fpMeterCell struct {
 }
 
 type fpFault struct {
-	Shape string // "transport" (not applied), "p4err" (not applied, per-update INTERNAL), "lost" (applied, response lost)
+	Shape string // "transport" (not applied), "p4err" (not applied, per-update INTERNAL), "lost" (applied, response lost), "unknown-bare" (not applied, UNKNOWN without details)
 }
 
 type fpWriteRec struct {
@@ -383,6 +383,11 @@ func (f *fakeP4) write(req *p4.WriteRequest) error {
 	if hasFault && fault.Shape == "transport" {
 		rec.Err = "injected transport error"
 		return status.Error(codes.Unavailable, "injected transport error")
+	}
+	if hasFault && fault.Shape == "unknown-bare" {
+		// gRPC status UNKNOWN without per-update details (a server-side failure outside the P4Runtime error model)
+		rec.Err = "injected UNKNOWN without details"
+		return status.Error(codes.Unknown, "injected failure without details")
 	}
 	if hasFault && fault.Shape == "p4err" {
 		rec.Err = "injected p4 error"
